@@ -48,6 +48,9 @@ def main(argv=None) -> int:
     if prop in NEEDS_TTY and not os.environ.get("VERIF_IN_PTY"):
         return run_under_pty([sys.executable, "-m", "harness.main"] + (argv if argv is not None else sys.argv[1:]))
     sys.path.insert(0, str(common.REPO))
+    from . import cov
+    if cov.enabled():
+        cov.start(prop, common.REPO, common.VERIF / "coverage")      # measurement only (see harness/cov.py)
     try:
         mod = importlib.import_module(f"harness.{prop.lower()}")
     except ModuleNotFoundError as e:
@@ -80,6 +83,8 @@ def main(argv=None) -> int:
         return 2
     finally:
         ctx.close()
+        if cov.enabled():
+            cov.finish()
 
 
 # Properties whose harness constructs TupimageTerminal in-process: it always opens /dev/tty, so the
